@@ -219,19 +219,20 @@ type Profile struct {
 }
 
 type World struct {
-	P       Profile
-	Cfg     *fosite.Config
-	Mem     *storage.MemoryStore
-	Store   *ProxyStore
-	Tx      *TxStore
-	Prov    fosite.OAuth2Provider
-	now     time.Time
-	Rand    *DetReader
-	Names   *Namer
-	Secrets map[string]string // client id -> plaintext secret
-	IDKey   crypto.Signer
-	Dev     *rfc8628.DefaultDeviceStrategy
-	HMAC    *oauth2.HMACSHAStrategy
+	P         Profile
+	Cfg       *fosite.Config
+	Mem       *storage.MemoryStore
+	Store     *ProxyStore
+	Tx        *TxStore
+	Prov      fosite.OAuth2Provider
+	now       time.Time
+	cancelReq context.CancelFunc
+	Rand      *DetReader
+	Names     *Namer
+	Secrets   map[string]string // client id -> plaintext secret
+	IDKey     crypto.Signer
+	Dev       *rfc8628.DefaultDeviceStrategy
+	HMAC      *oauth2.HMACSHAStrategy
 }
 
 func (w *World) Now() time.Time          { return w.now }
